@@ -90,12 +90,12 @@ Definition judge1 (c : case) : verdict :=
       {| v_model := option_eqb prange_same (range_deserializer v) back && range_regex_agree v;
          v_class := 0; v_spec := true |}
   | CTd total ser back chan_ok =>
-      {| v_model := str_eqb (td_str total) ser && td_res_eqb (timedelta_deserializer (PStr ser)) back
+      {| v_model := str_eqb (td_str total) ser && td_res_eqb (td_registered deserializer_catches_overflow (PStr ser)) back
                     && td_regex_agree (PStr ser);
          v_class := 0;
          v_spec := chan_ok && td_res_eqb back (TdOk total) |}
   | CTdDes v back =>
-      {| v_model := td_res_eqb (timedelta_deserializer v) back && td_regex_agree v; v_class := 0; v_spec := true |}
+      {| v_model := td_res_eqb (td_registered deserializer_catches_overflow v) back && td_regex_agree v; v_class := 0; v_spec := true |}
   | CSecret secret ser leaked kept =>
       {| v_model := str_eqb (secret_serializer secret) ser;
          v_class := 0;
